@@ -182,6 +182,15 @@ func (r *DRun) resolve(op *DOp) (seqs []lz.Seq, firstBad int) {
 			} else {
 				q.Offset = uint32(maxValid)
 			}
+		case 5:
+			// small non-power-of-two offsets (long overlapping copies)
+			o := int64([]int{3, 5, 7, 6, 9, 100}[int(s.O)%6])
+			if o > maxValid {
+				o = maxValid
+			}
+			if o > 0 {
+				q.Offset = uint32(o)
+			}
 		default:
 			if maxValid > 0 {
 				q.Offset = uint32(int64(s.O)%maxValid) + 1
@@ -384,7 +393,7 @@ func (r *DRun) stepBuffer(i int, op *DOp) {
 			r.invariants(i, true)
 			return
 		}
-		if err == nil && s.MatchLen > 1<<22 {
+		if err == nil && int64(s.MatchLen) > int64(2*r.B)+1<<16 {
 			r.failf(i, "oversized-accepted", "oversized-accepted", "WriteMatch(m=%d) accepted by a buffer with BufferSize %d", s.MatchLen, r.B)
 			return
 		}
@@ -544,7 +553,7 @@ func (r *DRun) afterBlock(i int, op *DOp, seqs []lz.Seq, bad int, lits []byte, s
 		}
 	}
 	for j := 0; j < k && j < len(seqs); j++ {
-		if seqs[j].MatchLen > 1<<22 || seqs[j].LitLen > 1<<22 {
+		if lim := int64(2*r.B) + 1<<16; int64(seqs[j].MatchLen) > lim || int64(seqs[j].LitLen) > lim {
 			r.failf(i, "oversized-accepted", "oversized-accepted", "sequence %d %+v reported as consumed by a decoder with BufferSize %d", j, seqs[j], r.B)
 			return
 		}
@@ -774,6 +783,32 @@ func (r *DRun) stepDecoder(i int, op *DOp) {
 				return
 			}
 		}
+	case "reinit":
+		// Init on a used Decoder starts a new stream on a new writer
+		var err error
+		if !r.decCall(i, "Flush", 0, func() { err = d.Flush() }) {
+			return
+		}
+		if err != nil {
+			return
+		}
+		if !bytes.Equal(w.accepted, m.Out) {
+			r.failf(i, "flush-incomplete", "flush", "before re-Init the writer holds %d of %d bytes", len(w.accepted), len(m.Out))
+			return
+		}
+		w2 := &planWriter{fault: w.fault, calls: w.calls, faultsSeen: w.faultsSeen} // the fault plan goes on by writer call index
+		var ierr error
+		if pv := call(func() { ierr = d.Init(w2, cfgOf(r.dc)) }); pv != nil {
+			r.failf(i, "panic", "panic-Decoder.Init", "%s", fmtPanic(pv))
+			return
+		}
+		if ierr != nil {
+			r.failf(i, "unexpected-error", "Init-error", "re-Init of a used Decoder returned %v", ierr)
+			return
+		}
+		r.w = w2
+		m.Reset()
+		st.Inc("reinits")
 	case "reset":
 		// a reset drops unflushed data by design: flush first so that the
 		// exactly-once accounting stays meaningful
@@ -784,7 +819,7 @@ func (r *DRun) stepDecoder(i int, op *DOp) {
 		if err != nil {
 			return
 		}
-		w2 := &planWriter{fault: nil}
+		w2 := &planWriter{fault: w.fault, calls: w.calls, faultsSeen: w.faultsSeen} // the fault plan goes on by writer call index
 		if pv := call(func() { d.Reset(w2) }); pv != nil {
 			r.failf(i, "panic", "panic-Decoder.Reset", "%s", fmtPanic(pv))
 			return
@@ -869,7 +904,7 @@ func (g *DGen) size(r *rand.Rand) int {
 		free = 1
 	}
 	if g.BigItems {
-		switch r.Intn(10) {
+		switch r.Intn(14) {
 		case 0:
 			return free - 1
 		case 1:
@@ -882,6 +917,14 @@ func (g *DGen) size(r *rand.Rand) int {
 			return g.B + 1 + r.Intn(g.B+1)
 		case 5:
 			return g.W
+		case 6:
+			return g.W + 1 + r.Intn(6)
+		case 7:
+			if free > 8 {
+				return free - 1 - r.Intn(7)
+			}
+		case 8:
+			return 1 + r.Intn(free)
 		}
 	}
 	if free < 1 {
@@ -928,7 +971,7 @@ func (g *DGen) validSeq(r *rand.Rand, maxLit int) DSeq {
 	if r.Intn(6) == 0 {
 		m = 0
 	}
-	return DSeq{L: uint32(l), M: uint32(m), OK: 1 + r.Intn(4), O: uint32(r.Intn(1 << 16))}
+	return DSeq{L: uint32(l), M: uint32(m), OK: 1 + r.Intn(5), O: uint32(r.Intn(1 << 16))}
 }
 
 // GenDOps generates a decoder history.
@@ -984,6 +1027,13 @@ func GenDOps(r *rand.Rand, g *DGen) []DOp {
 					s.L = hostileU32(r, len(lits), len(lits)+1, total)
 				case 2: // match length
 					s.M = hostileU32(r, g.W, g.B, g.B-g.W)
+					if r.Intn(3) == 0 {
+						// LitLen+MatchLen at the 2^32 boundary (32-bit sums wrap)
+						if s.L == 0 && len(lits) > 0 {
+							s.L = 1
+						}
+						s.M = uint32(int64(1)<<32 - int64(s.L) + int64(r.Intn(3)) - 1)
+					}
 					if r.Intn(2) == 0 {
 						s.OK, s.O = 0, hostileU32(r, 0, g.W+1)
 					}
@@ -1006,7 +1056,7 @@ func GenDOps(r *rand.Rand, g *DGen) []DOp {
 			}
 		case k < 93 && !g.NoReset:
 			ops = append(ops, DOp{K: "reset"})
-		case k < 95 && !g.NoReset && g.SUT == "buffer":
+		case k < 95 && !g.NoReset:
 			ops = append(ops, DOp{K: "reinit"})
 		default:
 			ops = append(ops, DOp{K: "write", Data: genLits(r, g.size(r))})
